@@ -646,7 +646,7 @@ func hostStream() {
 }
 
 func revocationDialStream(pool [][]byte) {
-	n := r.Pick(4000, 60000)
+	n := r.Pick(2500, 60000)
 	for i := 0; i < n; i++ {
 		hosts := randAllowList()
 		host := randHost()
@@ -1210,6 +1210,277 @@ func e2eStream(pool [][]byte) {
 	}
 }
 
+// ---------------------------------------------------------------- sequences: one dial context / client instance, several dials
+//
+// The model is stateless: each attempt of a sequence is sent to the model on its own. Any state
+// kept by the real dial context between dials (a cache of answers, a "seen" set, ...) therefore
+// shows up as a disagreement on a later attempt, and the oracle judges every attempt by itself.
+
+func revocationSequenceStream(pool [][]byte) {
+	n := r.Pick(1200, 15000)
+	for i := 0; i < n; i++ {
+		hosts := randAllowList()
+		res := &fakeResolver{table: map[string][]net.IPAddr{}}
+		rec := &recDialer{}
+		dc := sign.VerifRevocationDialContext(res, rec.dial, sign.VerifAllowedRevocationHostSet(hosts))
+		hostA, hostB := randHost(), randHost()
+		steps := 2 + r.Rand.Intn(3)
+		var prevAnswer [][]byte
+		prevKind := ""
+		shape := ""
+		var trail []string
+		for k := 0; k < steps; k++ {
+			host := hostA
+			if k > 0 && r.Rand.Intn(3) == 0 {
+				host = hostB
+			}
+			// the resolver's answer for this attempt: changed, flipped between public and private, or kept
+			var answer [][]byte
+			var kind string
+			switch {
+			case k == 0 || r.Rand.Intn(4) == 0:
+				answer, kind = randAnswer(pool)
+			case r.Rand.Intn(3) == 0:
+				answer, kind = prevAnswer, prevKind
+			case prevKind == "all-public":
+				answer = append([][]byte{}, prevAnswer...)
+				answer[r.Rand.Intn(len(answer))] = randPrivate(pool)
+				kind = "one-private"
+			default:
+				kind = "all-public"
+				for x := 0; x < 1+r.Rand.Intn(3); x++ {
+					answer = append(answer, randPublic())
+				}
+			}
+			fail := r.Rand.Intn(25) == 0
+			script := make([]bool, r.Rand.Intn(len(answer)+2))
+			for j := range script {
+				script[j] = r.Rand.Intn(2) == 0
+			}
+			port := []string{"80", "443", "8080"}[r.Rand.Intn(3)]
+			trail = append(trail, fmt.Sprintf("%q:%s %s fail=%v script=%s", host, port, ipList(answer), fail, scriptArg(script)))
+			in := map[string]any{"fn": "revdial-sequence", "allow": hosts, "attempt": k, "attempts": append([]string{}, trail...)}
+			shape += kind[:1+strings.Index(kind, "-")+1]
+			guard("revocation-sequence", in, func() {
+				delete(res.table, hostA)
+				delete(res.table, hostB)
+				if !fail {
+					res.table[host] = addrs(answer)
+				}
+				res.lookups = nil
+				rec.mu.Lock()
+				rec.calls = nil
+				rec.script = script
+				rec.mu.Unlock()
+				conn, err := dc(context.Background(), "tcp", net.JoinHostPort(host, port))
+				if conn != nil {
+					conn.Close()
+				}
+				targets, ports, bad := decodeCalls(rec.calls)
+				var impl string
+				switch {
+				case bad != "":
+					impl = "bad:" + bad
+				case len(rec.calls) == 0 && errors.Is(err, errResolve):
+					impl = "resolveerr"
+				case len(rec.calls) == 0 && err != nil:
+					impl = "rejected"
+				case len(rec.calls) == 0:
+					impl = "no-dial-no-error"
+				default:
+					impl = "dialled:" + ipList(targets) + ":" + vh.Bool(conn != nil && err == nil)
+				}
+				r.Case("revdial", []string{hostList(hosts), vh.Hex([]byte(host)), answerArg(answer, fail), scriptArg(script)}, impl)
+				if bad != "" {
+					r.OracleFail("revocation-dialled-non-address", in, bad)
+				}
+				cur := answer
+				if fail {
+					cur = nil
+					if len(rec.calls) > 0 {
+						r.OracleFail("revocation-sequence-dialled-unresolved-address", in, "resolver failed on this attempt but something was dialled")
+					}
+				}
+				if len(res.lookups) != 1 || res.lookups[0] != host {
+					r.OracleFail("revocation-sequence-not-resolved-afresh", in, fmt.Sprint("every dial must resolve the host again; lookups on this attempt: ", res.lookups))
+				}
+				dialOracle("revocation-sequence", in, hostAllowed(hosts, host), cur, targets, ports, port, rec.calls)
+			})
+			prevAnswer, prevKind = answer, kind
+		}
+		r.Count(fmt.Sprintf("class:revseq-%d-attempts", steps))
+		_ = shape
+	}
+}
+
+func imageBoxSequenceStream(pool [][]byte) {
+	n := r.Pick(400, 5000)
+	for i := 0; i < n; i++ {
+		var mu sync.Mutex
+		var calls []dialRec
+		d := &net.Dialer{Timeout: 2 * time.Second, Control: func(network, address string, _ syscall.RawConn) error {
+			mu.Lock()
+			calls = append(calls, dialRec{"tcp", address})
+			mu.Unlock()
+			return errDial
+		}}
+		dc := primitives.VerifImageBoxDialContext(d)
+		pick := func() []byte {
+			for {
+				var a []byte
+				if r.Rand.Intn(2) == 0 {
+					a = randPublic()
+				} else {
+					a = randPrivate(pool)
+				}
+				if len(a) == 4 || len(a) == 16 {
+					return a
+				}
+			}
+		}
+		litA, litB := pick(), pick()
+		steps := 2 + r.Rand.Intn(3)
+		var trail []string
+		for k := 0; k < steps; k++ {
+			a := litA
+			if k%2 == 1 && r.Rand.Intn(2) == 0 {
+				a = litB
+			}
+			literal := net.IP(a).String()
+			port := []string{"80", "443", "8080"}[r.Rand.Intn(3)]
+			trail = append(trail, literal+":"+port)
+			in := map[string]any{"fn": "imgdial-sequence", "attempt": k, "attempts": append([]string{}, trail...)}
+			guard("imagebox-sequence", in, func() {
+				ans, err := net.DefaultResolver.LookupIPAddr(context.Background(), literal)
+				if err != nil || len(ans) != 1 {
+					return
+				}
+				answer := [][]byte{[]byte(ans[0].IP)}
+				mu.Lock()
+				calls = nil
+				mu.Unlock()
+				conn, derr := dc(context.Background(), "tcp", net.JoinHostPort(literal, port))
+				if conn != nil {
+					conn.Close()
+				}
+				targets, ports, bad := decodeCalls(calls)
+				var impl string
+				switch {
+				case bad != "":
+					impl = "bad:" + bad
+				case len(calls) == 0 && derr != nil:
+					impl = "rejected"
+				case len(calls) == 0:
+					impl = "no-dial-no-error"
+				default:
+					impl = "dialled:" + ipList(targets) + ":" + vh.Bool(conn != nil)
+				}
+				r.Case("imgdial", []string{answerArg(answer, false), "0"}, impl)
+				if bad != "" {
+					r.OracleFail("imagebox-dialled-non-address", in, bad)
+				}
+				dialOracle("imagebox-sequence", in, false, answer, targets, ports, port, calls)
+			})
+		}
+		r.Count(fmt.Sprintf("class:imgseq-%d-attempts", steps))
+	}
+}
+
+// one real revocation *http.Client, several fetches: a host first served while public and then
+// re-resolved as private (and the reverse), another port of the same host, a second host in between
+func clientSequenceStream(pool [][]byte) {
+	n := r.Pick(40, 400)
+	for i := 0; i < n; i++ {
+		hostA := fmt.Sprintf("a.seq%d.test", i)
+		hostB := fmt.Sprintf("b.seq%d.test", i)
+		res := &fakeResolver{table: map[string][]net.IPAddr{}}
+		ln := &chanListener{ch: make(chan net.Conn, 64), done: make(chan struct{})}
+		srv := &http.Server{Handler: http.HandlerFunc(func(w http.ResponseWriter, q *http.Request) { w.Write([]byte("final")) })}
+		go srv.Serve(ln)
+		script := make([]bool, 256)
+		for j := range script {
+			script[j] = true
+		}
+		rec := &recDialer{script: script, accept: func(c net.Conn) { ln.ch <- c }}
+		client := sign.VerifRevocationHTTPClient(3*time.Second, nil)
+		tr := client.Transport.(*http.Transport)
+		tr.DialContext = sign.VerifRevocationDialContext(res, rec.dial, sign.VerifAllowedRevocationHostSet(nil))
+		steps := 2 + r.Rand.Intn(3)
+		private := r.Rand.Intn(2) == 0
+		var trail []string
+		for k := 0; k < steps; k++ {
+			host := hostA
+			if k > 0 && r.Rand.Intn(4) == 0 {
+				host = hostB
+			}
+			if k > 0 {
+				private = !private || r.Rand.Intn(3) == 0
+			}
+			answer := [][]byte{randPublic()}
+			if r.Rand.Intn(2) == 0 {
+				answer = append(answer, randPublic())
+			}
+			if private {
+				answer[r.Rand.Intn(len(answer))] = randPrivate(pool)
+			}
+			port := []string{"", ":8080", ":8443"}[r.Rand.Intn(3)]
+			u := "http://" + host + port + "/crl" + fmt.Sprint(k)
+			trail = append(trail, fmt.Sprintf("%s -> %s", u, ipList(answer)))
+			in := map[string]any{"fn": "client-sequence", "attempt": k, "attempts": append([]string{}, trail...)}
+			guard("client-sequence", in, func() {
+				res.mu.Lock()
+				res.table = map[string][]net.IPAddr{host: addrs(answer)}
+				res.mu.Unlock()
+				rec.mu.Lock()
+				rec.calls = nil
+				rec.mu.Unlock()
+				// a new connection attempt per fetch (otherwise an idle keep-alive connection is reused
+				// without any dial, which is no new connection in the sense of the property)
+				tr.CloseIdleConnections()
+				status := "error"
+				if resp, err := client.Get(u); err == nil {
+					resp.Body.Close()
+					status = fmt.Sprint(resp.StatusCode)
+				}
+				want := "200"
+				if private {
+					want = "error"
+				}
+				good := true
+				if status != want {
+					good = false
+					r.OracleFail("revocation-client-sequence-outcome", in, "got "+status+" want "+want)
+				}
+				rec.mu.Lock()
+				calls := append([]dialRec{}, rec.calls...)
+				rec.mu.Unlock()
+				targets, _, bad := decodeCalls(calls)
+				if bad != "" {
+					good = false
+					r.OracleFail("revocation-dialled-non-address", in, bad)
+				}
+				for _, t := range targets {
+					if !contains(answer, t) {
+						good = false
+						r.OracleFail("revocation-client-sequence-dialled-unresolved-address", in, "target "+vh.Hex(t)+" is not in this attempt's answer")
+					}
+					if goSpec(t) || private {
+						good = false
+						r.OracleFail("revocation-client-sequence-dialled-private", in, "target "+vh.Hex(t)+" dialled although this attempt's answer is "+ipList(answer))
+					}
+				}
+				if good {
+					r.OracleOK()
+				}
+			})
+		}
+		tr.CloseIdleConnections()
+		close(ln.done)
+		srv.Close()
+		r.Count(fmt.Sprintf("class:clientseq-%d-fetches", steps))
+	}
+}
+
 func main() {
 	r = vh.Start("C30")
 	defer r.Finish()
@@ -1220,4 +1491,7 @@ func main() {
 	imageBoxStream(pool)
 	urlStream(pool)
 	e2eStream(pool)
+	revocationSequenceStream(pool)
+	imageBoxSequenceStream(pool)
+	clientSequenceStream(pool)
 }
